@@ -44,3 +44,5 @@ impl Formatter {
 #[verifier::external_body] pub fn vx_disp<T: VDisplay>(t: &T) -> (r: String) ensures r@ == t.display() { unimplemented!() }
 // a String is its characters
 pub broadcast axiom fn string_ext(a: String, b: String) requires #[trigger] a@ == #[trigger] b@ ensures a == b;
+// `{:?}`: Debug rendering, unconstrained
+#[verifier::external_body] pub fn vx_dbg<T>(t: &T) -> (r: String) { unimplemented!() }
